@@ -2,13 +2,27 @@
    arranged with those present.  The "still compatible" verdict comes only from a checked witness (witness_sound);
    "unique arrangement" is established by exhaustive search on the multiset and each arrangement is confirmed by the
    verified matcher.  Refutations on the faithful model. *)
-From MX Require Import Spec.Particle Spec.Deriv Spec.Parikh Gen.Names Gen.Templates Model.PyM Model.PyObs.
+From MX Require Import Spec.Particle Spec.Deriv Spec.Equiv Spec.Parikh Gen.Names Gen.Templates Gen.Schema Gen.Lib Model.Tables Model.PyM Model.PyObs
+  Model.AbsSeq Model.AbsSeqC02 Model.Classes Model.SeqMachine Model.SeqReject.
 From Coq Require Import List Bool Arith.
 Import ListNotations.
 
 Theorem C12_judge_compatible : forall r m w, wf r = true -> witness r m w = true -> Alive r m.
 Proof. exact witness_sound. Qed.
 Print Assumptions C12_judge_compatible.
+
+Lemma cm_rows_ok : forallb cm_row_ok cm_rows = true.
+Proof. vm_compute. reflexivity. Qed.
+(* (b) on the sequence machine, against the SCHEMA's content model: for every type of the sequence class and EVERY history, a
+   child is rejected only if no word of the schema's content model contains the children present together with it *)
+Theorem C12b_partial_seq : forall key x l t ops a, In (key, Some x, Some l) cm_rows -> stree_of l = Some t ->
+  snd (mstep (mrun t ops) (MAdd a)) <> MOk -> ~ Alive (re_of x) (AbsSeq.names (AbsSeq.ordered (tree (mrun t ops))) ++ [a]).
+Proof.
+  intros key x l t ops a I St R (w & L & Dom).
+  apply (C12b_reachable t ops a R). exists w. split; auto.
+  apply (stree_of_lang l t St). apply (proj1 (cm_row_sound key x l (forallb_In _ _ _ cm_rows_ok I))). exact L.
+Qed.
+Print Assumptions C12b_partial_seq.
 
 (* RC4: after pitch was removed, cue (an exclusive alternative that is now compatible) is rejected *)
 Example C12_refuted_note :
